@@ -30,12 +30,13 @@ pub fn dn_type(t: &DnTypeSpec) -> DnType {
 		DnTypeSpec::Org => DnType::OrganizationName,
 		DnTypeSpec::OrgUnit => DnType::OrganizationalUnitName,
 		DnTypeSpec::CommonName => DnType::CommonName,
-		// Half of the custom types are obtained the way `DnType::from_oid` hands them out. (Not for the
+		// Custom types are obtained the way `DnType::from_oid` hands them out (today that is the
+		// `CustomDnType` variant; should a type get a named variant one day, callers get that). (Not for the
 		// six OIDs that have named variants: `CustomDnType(2.5.4.3)` and `CommonName` are distinct map
 		// keys, and the specs keep them apart.)
 		DnTypeSpec::Custom(v) => {
 			const NAMED: [&[u64]; 6] = [&[2, 5, 4, 6], &[2, 5, 4, 7], &[2, 5, 4, 8], &[2, 5, 4, 10], &[2, 5, 4, 11], &[2, 5, 4, 3]];
-			if v.iter().fold(0u64, |a, b| a ^ b) % 2 == 0 && !NAMED.contains(&v.as_slice()) {
+			if !NAMED.contains(&v.as_slice()) {
 				DnType::from_oid(v)
 			} else {
 				DnType::CustomDnType(v.clone())
